@@ -91,8 +91,26 @@ angle_strategy = st.builds(lambda h, v, s: {'h': h, 'v': v, 's': s, 'scale': s},
 
 
 # ---------------------------------------------------------------- poses
+def _signed_perms():
+    import itertools
+    mats = []
+    for perm in itertools.permutations(range(3)):
+        for signs in itertools.product([1.0, -1.0], repeat=3):
+            m = np.zeros((3, 3))
+            for i in range(3):
+                m[i, perm[i]] = signs[i]
+            if abs(np.linalg.det(m) - 1.0) < 1e-12:
+                mats.append(m)
+    return mats
+
+
+_EXACT = _signed_perms()      # the 24 rotations with exact 0/+-1 matrices (exact quarter and half turns)
+
+
 def _mk(p):
     from cflib.localization.lighthouse_types import Pose
+    if 'm' in p:
+        return Pose(R_matrix=_EXACT[p['m'] % len(_EXACT)].copy(), t_vec=np.array(p['t'], dtype=float))
     return Pose.from_rot_vec(R_vec=np.array(p['r'], dtype=float), t_vec=np.array(p['t'], dtype=float))
 
 
@@ -105,7 +123,7 @@ def run_poses(case):
     out = Outcome()
     A, B, C = _mk(case['A']), _mk(case['B']), _mk(case['C'])
     pt = np.array(case['point'], dtype=float)
-    special = any(np.linalg.norm(p['r']) < 1e-6 or abs(np.linalg.norm(p['r']) - math.pi) < 1e-6 for p in (case['A'], case['B'], case['C']))
+    special = any('m' in p or np.linalg.norm(p['r']) < 1e-6 or abs(np.linalg.norm(p['r']) - math.pi) < 1e-6 for p in (case['A'], case['B'], case['C']))
     out.nontrivial = special or True
     out.feat('special-rotation' if special else 'generic-rotation')
     desc = 'A=%r B=%r C=%r p=%r' % (case['A'], case['B'], case['C'], case['point'])
@@ -114,8 +132,13 @@ def run_poses(case):
         if np.max(np.abs(R @ R.T - np.eye(3))) > 1e-9 or abs(np.linalg.det(R) - 1) > 1e-9:
             out.fail('pose:not-proper-rotation', '%s: %s' % (desc, name))
         # views agree
-        if not _peq(Pose.from_rot_vec(P.rot_vec, P.translation), P) or not _peq(Pose.from_quat(P.rot_quat, P.translation), P):
-            out.fail('pose:views-disagree', '%s: %s rot_vec %r quat %r' % (desc, name, P.rot_vec.tolist(), P.rot_quat.tolist()))
+        try:
+            views_ok = _peq(Pose.from_rot_vec(P.rot_vec, P.translation), P) and _peq(Pose.from_quat(P.rot_quat, P.translation), P)
+        except Exception as e:  # noqa
+            out.fail('pose:views-raise', '%s: %s: %r' % (desc, name, e))
+            views_ok = True
+        if not views_ok:
+            out.fail('pose:views-disagree', '%s: %s' % (desc, name))
         Rm, tv = P.matrix_vec
         if Rm is not P.rot_matrix and np.max(np.abs(Rm - P.rot_matrix)) > 0:
             out.fail('pose:matrix-vec', desc)
@@ -127,6 +150,14 @@ def run_poses(case):
         # reference transform
         if np.max(np.abs(P.rotate_translate(pt) - (R @ pt + P.translation))) > 1e-9:
             out.fail('pose:rotate-translate', '%s: %s' % (desc, name))
+    for name, P in (('A*B', A.rotate_translate_pose(B)), ('A^-1*B', A.inv_rotate_translate_pose(B))):
+        try:
+            ok = _peq(Pose.from_rot_vec(P.rot_vec, P.translation), P, 1e-8) and _peq(Pose.from_quat(P.rot_quat, P.translation), P, 1e-8)
+        except Exception as e:  # noqa
+            out.fail('pose:views-raise', '%s: %s: %r' % (desc, name, e))
+            ok = True
+        if not ok:
+            out.fail('pose:views-disagree', '%s: %s' % (desc, name))
     # pose inverse
     if not _peq(A.inv_rotate_translate_pose(A.rotate_translate_pose(B)), B, 1e-8) or not _peq(A.rotate_translate_pose(A.inv_rotate_translate_pose(B)), B, 1e-8):
         out.fail('pose:pose-inverse', desc)
@@ -169,7 +200,8 @@ def _rotvec(draw):
 
 
 _trans = st.lists(st.one_of(st.floats(-10, 10, allow_nan=False), st.sampled_from([0.0, 1.0, -10.0])), min_size=3, max_size=3)
-_pose = st.fixed_dictionaries({'r': _rotvec(), 't': _trans})
+_pose = st.one_of(st.fixed_dictionaries({'r': _rotvec(), 't': _trans}), st.fixed_dictionaries({'r': _rotvec(), 't': _trans}),
+                  st.fixed_dictionaries({'m': st.integers(0, 23), 't': _trans}))
 pose_strategy = st.fixed_dictionaries({'A': _pose, 'B': _pose, 'C': _pose, 'point': _trans})
 
 
@@ -193,8 +225,8 @@ def run_solver(case):
         for si in range(4):
             g = cfP.rotate_translate(sens[si])
             p = bsP.inv_rotate_translate(g)
-            if p[0] < 0.05:
-                continue
+            if abs(p[0]) < 0.05:
+                continue        # on/near the plane x=0 both paths are ill-conditioned
             bs_p.append(np.concatenate((bs_r, bs_t)))
             cf_p.append(np.concatenate((cf_r, cf_t)))
             sp.append(sens[si])
@@ -205,8 +237,10 @@ def run_solver(case):
     if not ref:
         return out
     got = LighthouseGeometrySolver._calc_angle_pairs(np.array(bs_p), np.array(cf_p), np.array(sp), defs)
+    def _ad(a, b):
+        return abs((a - b + math.pi) % (2 * math.pi) - math.pi)
     for k, r in enumerate(ref):
-        if abs(got[k][0] - r[0]) > 1e-9 or abs(got[k][1] - r[1]) > 1e-9 or abs(got[k][0] - r[2]) > 1e-9 or abs(got[k][1] - r[3]) > 1e-9:
+        if _ad(got[k][0], r[0]) > 1e-9 or _ad(got[k][1], r[1]) > 1e-9 or _ad(got[k][0], r[2]) > 1e-9 or _ad(got[k][1], r[3]) > 1e-9:
             out.fail('solver:projection-mismatch' + (':beyond-pi' if np.linalg.norm(bs_p[k][:3]) > math.pi or np.linalg.norm(cf_p[k][:3]) > math.pi else
                                                      ':zero-rotation' if np.linalg.norm(bs_p[k][:3]) == 0 or np.linalg.norm(cf_p[k][:3]) == 0 else ''),
                      'bs %r cf %r sensor %r: solver (%.9f, %.9f), Pose/atan2 (%.9f, %.9f)' % (bs_p[k].tolist(), cf_p[k].tolist(), sp[k].tolist(),
